@@ -85,7 +85,7 @@ theorem runText_Fv (s : St) (rs : Ref.St) (p : List Expr) (hne : p ≠ []) (hp :
   cases hres : Ref.evalBegin n p 0 { rs with trace := [] } with
   | ok v rs' =>
     rw [hres] at hsim
-    obtain ⟨s1, r, l, rel1⟩ := hsim
+    obtain ⟨s1, r, l, rel1, -⟩ := hsim
     have hrun := run_of_lands hseg r l fuel hf
     refine ⟨s1.jmp s1.pc (loadState (clearTrace s) (clearTrace s) code).data,
       depths (s1.jmp s1.pc (loadState (clearTrace s) (clearTrace s) code).data), ?_, rel1.jmp _ _⟩
